@@ -4,7 +4,7 @@
 From Coq Require Import Reals List Bool Lra Psatz.
 From Coquelicot Require Import Coquelicot.
 From Cop Require Import Lib.NumpyR Lib.RealLemmas Spec.ArchDefs.
-From Cop Require Spec.Clayton Spec.Frank Spec.Gumbel.
+From Cop Require Spec.Clayton Spec.Frank Spec.Gumbel Spec.ArchExtras.
 From CopRun Require Import Gen_biv Bridge_biv.
 Import ListNotations.
 Open Scope R_scope.
@@ -123,6 +123,30 @@ Proof.
   pose proof (Gumbel.gumbel_two_increasing th u1 u2 v1 v2 Hth) as HH. unfold Cvol in HH. lra.
 Qed.
 
+(* Gumbel on the whole half-open square (0,1]^2: the generated model equals the continuous extension
+   gumbel_Cb (numpy's 0 ** theta = 0 on the edges u = 1 / v = 1), which is 2-increasing and within the
+   Frechet bounds *)
+Lemma GC_is_Cb th u v : 1 < th -> 0 < u <= 1 -> 0 < v <= 1 -> GC th u v = ArchExtras.gumbel_Cb th u v.
+Proof.
+  intros Hth Hu Hv. unfold ArchExtras.gumbel_Cb.
+  destruct (Req_EM_T u 1) as [->|Nu].
+  - destruct (Req_dec v 1) as [->|Nv]; [apply bridge_gumbel_cdf_one_one; assumption|].
+    apply bridge_gumbel_cdf_one_l; lra.
+  - destruct (Req_EM_T v 1) as [->|Nv]; [apply bridge_gumbel_cdf_one_r; lra|].
+    apply bridge_gumbel_cdf; lra.
+Qed.
+Theorem C06_gumbel_two_increasing_closed th u1 u2 v1 v2 :
+  1 < th -> 0 < u1 -> u1 <= u2 -> u2 <= 1 -> 0 < v1 -> v1 <= v2 -> v2 <= 1 ->
+  0 <= Cvol (GC th) u1 u2 v1 v2.
+Proof.
+  intros Hth Hu1 Hu12 Hu2 Hv1 Hv12 Hv2. unfold Cvol. rewrite !GC_is_Cb by lra.
+  pose proof (ArchExtras.gumbel_Cb_two_increasing th u1 u2 v1 v2 Hth Hu1 Hu12 Hu2 Hv1 Hv12 Hv2) as HH.
+  unfold Cvol in HH. exact HH.
+Qed.
+Theorem C06_gumbel_frechet_closed th u v : 1 < th -> 0 < u <= 1 -> 0 < v <= 1 ->
+  Rmax (u + v - 1) 0 <= GC th u v <= Rmin u v.
+Proof. intros Hth Hu Hv. rewrite GC_is_Cb by assumption. apply ArchExtras.gumbel_Cb_frechet; assumption. Qed.
+
 (* ================= Frechet-Hoeffding bounds ================= *)
 Theorem C06_clayton_frechet th u v : 0 < th -> 0 <= u <= 1 -> 0 <= v <= 1 ->
   Rmax (u + v - 1) 0 <= CC th u v <= Rmin u v.
@@ -235,3 +259,5 @@ Print Assumptions C06_clayton_generator.
 Print Assumptions C06_frank_generator.
 Print Assumptions C06_gumbel_generator.
 Print Assumptions C06_rowwise.
+Print Assumptions C06_gumbel_two_increasing_closed.
+Print Assumptions C06_gumbel_frechet_closed.
